@@ -629,6 +629,30 @@ func TestC17(t *testing.T) {
 				ids[k.duid] = w.col
 			}
 		}
+		// every collection has its OWN stored snapshots and user-visible documents: what the server keeps for a key
+		// in one collection must not depend on what another collection keeps under the same key (all is quiet now)
+		cw.env.WaitBackground(5 * time.Second)
+		dump := cw.env.Mongo.Dump()
+		for _, w := range cw.cols {
+			for _, k := range w.keys {
+				if k.duid == "" || !k.created {
+					continue
+				}
+				log, _ := w.storedLog(k.duid)
+				if len(log) == 0 {
+					continue
+				}
+				latest := int64(-1)
+				for _, sd := range dump[cw.env.DBName+".-_-Snapshots"] {
+					if bstr(bget(sd, "duid")) == k.duid && bint(bget(sd, "sseq")) > latest {
+						latest = bint(bget(sd, "sseq"))
+					}
+				}
+				if latest != int64(len(log)) {
+					c.failf("collection %s, key %s: the log has %d operations, every push was followed by a snapshot update and all is quiet, but the latest snapshot stored for datatype %s is at version %d (-1 = none)", w.col, k.Name, len(log), k.duid, latest)
+				}
+			}
+		}
 		if u := cw.env.Mongo.UnknownCommands(); len(u) > 0 {
 			c.failf("HARNESS-ERROR: unknown commands %v", u)
 		}
